@@ -70,6 +70,41 @@ def main():
                             fail("large_span_bins_wrong", [f["kind"], "large_span"], case,
                                  f"values({s},{e},bins={bins}) = {got}, expected {want}")
 
+    # ---- bins together span the range (worker 1 only): on the staircase files the value / depth at
+    # base p is p + 1, so over any range inside the chromosome the minimum is s + 1 and the maximum
+    # is e, and they can only come out of the bins if the first bin starts at s and the last one
+    # ends at e -- however the fractional widths in between are rounded to whole bases
+    fracm = os.path.join(os.path.dirname(manifest), "manifest_frac.json")
+    if part == (1 % nparts) and os.path.exists(fracm):
+        for f in json.load(open(fracm)):
+            Lf = f["length"]
+            try:
+                b = pybigtools.open(f["path"])
+            except BaseException as e:
+                fail("open_failed", [f["kind"], "staircase"], {"idx": -1, "file": f["path"]}, repr(e))
+                continue
+            for s in (0, 3):
+                for e in range(s + 2, Lf + 1):
+                    n = e - s
+                    for bins in range(1, n + 1):
+                        stats["staircase_calls"] = stats.get("staircase_calls", 0) + 2
+                        case = {"idx": -1, "file": f["path"].split("/")[-1], "kind": f["kind"], "start": s, "end": e,
+                                "bins": bins, "summary": "min+max", "exact": True}
+                        try:
+                            lo = [float(x) for x in b.values("c", s, e, bins=bins, summary="min", exact=True, missing=-1.0, oob=-7.0)]
+                            hi = [float(x) for x in b.values("c", s, e, bins=bins, summary="max", exact=True, missing=-1.0, oob=-7.0)]
+                        except BaseException as ex:
+                            fail("values_raised", [f["kind"], "staircase"], case, repr(ex))
+                            continue
+                        # every bin holds at least one base (bins <= bases) and every base has data:
+                        # bin i spans bases [lo[i] - 1, hi[i]), and the spans must tile [s, e)
+                        ok = len(lo) == bins and len(hi) == bins and lo[0] == s + 1 and hi[-1] == e
+                        ok = ok and all(1 <= a <= z for a, z in zip(lo, hi))
+                        ok = ok and all(lo[i + 1] == hi[i] + 1 for i in range(bins - 1))
+                        if not ok:
+                            fail("bins_do_not_tile_the_range", [f["kind"], "staircase", "integral_width" if n % bins == 0 else "fractional_width"], case,
+                                 f"values({s},{e},bins={bins}) on data whose value at base p is p+1: minima {lo}, maxima {hi}: the bins' spans are not consecutive pieces of [{s},{e})")
+
     idx = -1
     for fi, f in enumerate(files):
         L = f["length"]
